@@ -52,7 +52,7 @@ CHECKS = {
              "recorded by the entry before it (three lists, every patch's commit, head, branch) and appends to the log; "
              "`stg redo` after it brings back exactly the state the undo took away; for every modelled stg command other "
              "than undo / redo that succeeds and records one entry, a following undo restores the stack it found "
-             "(C05_undo_restores_logged_state, _redo_restores_undone_state, _undo_undoes_step, non-vacuity witness). "
+             "(C05_undo_restores_logged_state, _redo_restores_undone_state, _undo_undoes_step, non-vacuity witness); `undo -n 2` reaches the same stack as two single undos (C05_undo_2_is_two_undos). "
              "Theorems over the abstract log: undo -n k = k-th state of the effective timeline, = k single undos; "
              "redo -n k = k-th entry of the redo stack, refused after any other operation; find_undo_state over the "
              "object store IS that walk; reset_to_state installs exactly the logged state. Direct oracle with its own "
